@@ -3,48 +3,95 @@ package main
 import (
 	"go/ast"
 	"go/token"
+	"os"
+	"path/filepath"
+	"regexp"
+	"strconv"
 	"strings"
 )
 
 // C14: from chains/evm/executor/executor.go
 //   - the roll-over condition of proposalBatches, translated to a Lean Bool over (n gas g cap : Nat)
-//   - the relative order of: roll-over test, `gasLimit += propGasLimit`, `append(currentBatch.proposals, …)`
+//   - the relative order of: roll-over test, gas addition, append of the proposal
 //   - the session-id format string and whether the index it uses is a per-iteration copy
+//
+// Anchors are found by SHAPE, not by the names of locals (a rename of currentBatch / propGasLimit / i / the
+// receiver is a harmless refactor): the "current batch" is whatever variable X has a top-level statement
+// `X.gasLimit += Y` (or `X.gasLimit = X.gasLimit + Y`) in the range body; the roll-over test is the top-level
+// `if` whose body re-assigns X; the append is `X.proposals = append(X.proposals, …)`.
 func init() {
 	extractors["C14"] = func(o *Out) {
 		f := o.ParseFile("chains/evm/executor/executor.go")
 		fd := FindFunc(f, "Executor", "proposalBatches")
 		cond, condOK := "false", false
 		order := []string{}
+		recv := "e"
+		if fd != nil && fd.Recv != nil && len(fd.Recv.List) == 1 && len(fd.Recv.List[0].Names) == 1 {
+			recv = fd.Recv.List[0].Names[0].Name
+		}
+		// gasAdd reports whether st adds to <X>.gasLimit and returns X and the added expression
+		gasAdd := func(st ast.Stmt) (string, ast.Expr, bool) {
+			s, ok := st.(*ast.AssignStmt)
+			if !ok || len(s.Lhs) != 1 || len(s.Rhs) != 1 {
+				return "", nil, false
+			}
+			sel, ok := s.Lhs[0].(*ast.SelectorExpr)
+			if !ok || sel.Sel.Name != "gasLimit" {
+				return "", nil, false
+			}
+			x := Src(sel.X)
+			if s.Tok == token.ADD_ASSIGN {
+				return x, s.Rhs[0], true
+			}
+			if b, ok := s.Rhs[0].(*ast.BinaryExpr); ok && s.Tok == token.ASSIGN && b.Op == token.ADD {
+				if Src(b.X) == Src(sel) {
+					return x, b.Y, true
+				}
+				if Src(b.Y) == Src(sel) {
+					return x, b.X, true
+				}
+			}
+			return "", nil, false
+		}
 		if fd != nil {
 			Walk(fd.Body, func(n ast.Node) bool {
 				rs, ok := n.(*ast.RangeStmt)
 				if !ok {
 					return true
 				}
+				cb, gsrc := "", ""
 				for _, st := range rs.Body.List {
+					if x, y, ok := gasAdd(st); ok {
+						cb, gsrc = x, Src(y)
+					}
+				}
+				if cb == "" {
+					return false
+				}
+				o.Facts["current_batch_var"] = cb
+				for _, st := range rs.Body.List {
+					if _, _, ok := gasAdd(st); ok {
+						order = append(order, "gas-add")
+						continue
+					}
 					switch s := st.(type) {
 					case *ast.IfStmt:
-						// the `if` whose body re-assigns currentBatch
 						reassigns := false
 						Walk(s.Body, func(m ast.Node) bool {
-							if a, ok := m.(*ast.AssignStmt); ok && len(a.Lhs) == 1 && Src(a.Lhs[0]) == "currentBatch" {
+							if a, ok := m.(*ast.AssignStmt); ok && len(a.Lhs) == 1 && Src(a.Lhs[0]) == cb {
 								reassigns = true
 							}
 							return true
 						})
 						if reassigns {
 							cond, condOK = LeanExpr(s.Cond, map[string]string{
-								"len(currentBatch.proposals)": "n", "currentBatch.gasLimit": "gas", "propGasLimit": "g",
-								"e.transactionMaxGas": "cap"})
+								"len(" + cb + ".proposals)": "n", cb + ".gasLimit": "gas", gsrc: "g",
+								recv + ".transactionMaxGas": "cap"})
 							o.Facts["rollover_cond_go"] = Src(s.Cond)
 							order = append(order, "rollover")
 						}
 					case *ast.AssignStmt:
-						if s.Tok == token.ADD_ASSIGN && Src(s.Lhs[0]) == "currentBatch.gasLimit" {
-							order = append(order, "gas-add")
-						}
-						if s.Tok == token.ASSIGN && Src(s.Lhs[0]) == "currentBatch.proposals" && strings.HasPrefix(Src(s.Rhs[0]), "append(") {
+						if s.Tok == token.ASSIGN && len(s.Lhs) == 1 && Src(s.Lhs[0]) == cb+".proposals" && strings.HasPrefix(Src(s.Rhs[0]), "append("+cb+".proposals,") {
 							order = append(order, "append")
 						}
 					}
@@ -59,34 +106,64 @@ func init() {
 		o.Lean.WriteString("/-- order of the three statements of the loop body -/\n")
 		o.Lean.WriteString("def order : List String := " + LeanStrList(order) + "\n\n")
 
-		// session id: fmt.Sprintf(<fmt>, messageID, i) inside Execute; is `i` re-declared inside the loop body?
+		// session id: <v> := fmt.Sprintf(<fmt>, <message id>, <K>) inside the `for K, … := range` of Execute.
+		// K is a per-iteration value if the body re-declares it (`K := K`) before the goroutines start, or if the
+		// module's language version gives range variables per-iteration scope (go >= 1.22).
 		ex := FindFunc(f, "Executor", "Execute")
 		sfmt, copied := "", false
+		perIter := goVersionAtLeast(1, 22)
+		o.Facts["go_per_iteration_loopvar"] = perIter
 		if ex != nil {
 			Walk(ex.Body, func(n ast.Node) bool {
-				if rs, ok := n.(*ast.RangeStmt); ok && Src(rs.Key) == "i" {
+				rs, ok := n.(*ast.RangeStmt)
+				if !ok || rs.Key == nil {
+					return true
+				}
+				k := Src(rs.Key)
+				found := false
+				Walk(rs.Body, func(m ast.Node) bool {
+					if c, ok := m.(*ast.CallExpr); ok && Src(c.Fun) == "fmt.Sprintf" && len(c.Args) == 3 && Src(c.Args[2]) == k {
+						if lit, ok := c.Args[0].(*ast.BasicLit); ok && lit.Kind == token.STRING {
+							if s, err := strconv.Unquote(lit.Value); err == nil && !found {
+								sfmt, found = s, true
+								o.Facts["session_args"] = Src(c.Args[1]) + "," + Src(c.Args[2])
+							}
+						}
+					}
+					return true
+				})
+				if found {
 					for _, st := range rs.Body.List {
-						if a, ok := st.(*ast.AssignStmt); ok && a.Tok == token.DEFINE && Src(a.Lhs[0]) == "i" && Src(a.Rhs[0]) == "i" {
+						if a, ok := st.(*ast.AssignStmt); ok && a.Tok == token.DEFINE && len(a.Lhs) == 1 && Src(a.Lhs[0]) == k && Src(a.Rhs[0]) == k {
 							copied = true
 						}
 					}
 				}
-				if as, ok := n.(*ast.AssignStmt); ok && len(as.Lhs) == 1 && Src(as.Lhs[0]) == "sessionID" {
-					if c, ok := as.Rhs[0].(*ast.CallExpr); ok && Src(c.Fun) == "fmt.Sprintf" && len(c.Args) == 3 {
-						sfmt = strings.Trim(Src(c.Args[0]), "\"")
-						o.Facts["session_args"] = Src(c.Args[1]) + "," + Src(c.Args[2])
-					}
-				}
-				return true
+				return !found
 			})
 		}
 		o.Facts["session_fmt"] = sfmt
 		o.Facts["session_index_copied_per_iteration"] = copied
 		o.Lean.WriteString("def sessionFmt : String := " + LeanStr(sfmt) + "\n")
-		if copied {
+		if copied || perIter {
 			o.Lean.WriteString("def sessionIndexCopied : Bool := true\n")
 		} else {
 			o.Lean.WriteString("def sessionIndexCopied : Bool := false\n")
 		}
 	}
+}
+
+// goVersionAtLeast reads the `go X.Y` directive of the repository's go.mod.
+func goVersionAtLeast(maj, min int) bool {
+	b, err := os.ReadFile(filepath.Join(repoRoot(), "go.mod"))
+	if err != nil {
+		return false
+	}
+	m := regexp.MustCompile(`(?m)^go (\d+)\.(\d+)`).FindStringSubmatch(string(b))
+	if m == nil {
+		return false
+	}
+	a, _ := strconv.Atoi(m[1])
+	c, _ := strconv.Atoi(m[2])
+	return a > maj || (a == maj && c >= min)
 }
